@@ -357,11 +357,13 @@ let step st (f : string array) : string list =
           let offs = List.mapi (fun i _ -> " " ^ string_of_z (Z.add before (z_of_int i))) ms in
           [Printf.sprintf "ok %s%s" (string_of_z n) (String.concat "" offs)]))
   | "pubbig" ->
-    (* a batch with a message above the 64 MiB guard, represented by its size only: Model.log_publish checks
-       existsb msg_too_big before any change of state and answers ETooBig (after Readonly / Closed) *)
+    (* a batch with a message above the 64 MiB guard, represented by its size only: Model.log_publish answers
+       ETooBig (after Readonly / Closed) before anything is written *)
     (match st.s.opened with
      | None -> [err EClosed]
-     | Some c -> if c.cro then [err EReadonly] else [err ETooBig])
+     | Some c -> if c.cro then [err EReadonly] else begin
+         (* History.pub_step: the rollover, when due, has happened before the batch is refused *)
+         st.s <- rolled h st.s; [err ETooBig] end)
   | "next" | "sync" ->
     (match next_of st with
      | Bad e -> [err e]
@@ -1405,7 +1407,8 @@ let run_delprog (path : string) =
      | RenameTmpLog b -> ["rename T.log " ^ pad b ^ ".log"]
      | RenameTmpIndex b -> ["rename T.index " ^ pad b ^ ".index"]
      | RemoveTmp -> ["remove T.index"; "remove T.log"]
-     | CreateHead (b, _) -> ["create " ^ pad b ^ ".log"; "create " ^ pad b ^ ".index"]) in
+     | CreateLog (b, _) -> ["create " ^ pad b ^ ".log"]
+     | CreateIdx b -> ["create " ^ pad b ^ ".index"]) in
   (try
      while true do
        let line = String.trim (input_line ic) in
@@ -1417,6 +1420,10 @@ let run_delprog (path : string) =
            (if f.(0) = "del" && Array.length f > 1 then begin
                let offs = parse_offsets f.(1) in
                let prog = delete_prog !st.s offs in
+               print_endline (Printf.sprintf "delprog %d %s" !opidx (String.concat " ; " (List.concat (List.map render prog))))
+             end);
+           (if (f.(0) = "pub" || f.(0) = "pubbig") && Array.length f > 1 then begin
+               let prog = publish_prog !st.s in
                print_endline (Printf.sprintf "delprog %d %s" !opidx (String.concat " ; " (List.concat (List.map render prog))))
              end);
            ignore (step !st f);
